@@ -121,6 +121,11 @@ type recorder struct {
 
 func (r *recorder) count(k string) { r.counts[k]++ }
 
+// errHarness: a refusal the harness makes in the keeper's place (the pool itself answered)
+type errHarness string
+
+func (e errHarness) Error() string { return string(e) }
+
 func encList(xs []*big.Int) []Big {
 	res := make([]Big, len(xs))
 	for i, x := range xs {
@@ -158,6 +163,18 @@ func (r *recorder) do(w *world, op string, i, o int, amt *big.Int, amts []*big.I
 		res = new(big.Int)
 	}
 	ev.B, ev.S = encList(w.reserves()), enc(w.shares())
+	if _, own := err.(errHarness); err != nil && !own && !strings.HasPrefix(err.Error(), "panic:") && (op == "swapIn" || op == "swapOut") {
+		// a SWAP the pool refused by returning an error: the state of the pool object the call ran on (a refused
+		// swap must not leave a partial update behind: later operations on the same object would be priced
+		// against it).  Not judged: refusals the harness makes in the keeper's place after the pool answered
+		// (zero shares), panics (the object is abandoned, as baseapp abandons the transaction) and refused joins /
+		// exits (the current stableswap JoinPool leaves its object touched when it refuses, and the keeper never
+		// saves such an object: demanding more there is not part of C04).
+		func() {
+			defer func() { _ = recover() }()
+			ev.B, ev.S = encList(c.reserves()), enc(c.shares())
+		}()
+	}
 	r.tw.Emit(ev)
 	key := "op:" + w.kind + ":" + op + ":"
 	if err == nil {
@@ -198,13 +215,13 @@ func call(w *world, op string, i, o int, amt *big.Int, amts []*big.Int, f, x osm
 			return nil, e
 		}
 		if !sh.IsPositive() { // the keeper refuses non-positive share amounts
-			return nil, fmt.Errorf("share amount is zero or negative")
+			return nil, errHarness("share amount is zero or negative")
 		}
 		return sh.BigInt(), nil
 	case "joinShares": // single-asset join, exact shares out -> tokens in (keeper: Calc + IncreaseLiquidity)
 		ext, ok := p.(gammtypes.PoolAmountOutExtension)
 		if !ok {
-			return nil, fmt.Errorf("pool does not support this kind of join")
+			return nil, errHarness("pool does not support this kind of join")
 		}
 		shares := osmomath.NewIntFromBigInt(amt)
 		tin, e := ext.CalcTokenInShareAmountOut(ctx, denom(i), shares, f)
@@ -216,7 +233,7 @@ func call(w *world, op string, i, o int, amt *big.Int, amts []*big.Int, f, x osm
 	case "exitOne": // single-asset exit, exact tokens out -> shares in (pool's own fees)
 		ext, ok := p.(gammtypes.PoolAmountOutExtension)
 		if !ok {
-			return nil, fmt.Errorf("pool does not support this kind of exit")
+			return nil, errHarness("pool does not support this kind of exit")
 		}
 		max := osmomath.NewIntFromBigInt(new(big.Int).Lsh(big.NewInt(1), 250))
 		sh, e := ext.ExitSwapExactAmountOut(ctx, coin(o, amt), max)
@@ -240,7 +257,7 @@ func call(w *world, op string, i, o int, amt *big.Int, amts []*big.Int, f, x osm
 			return nil, e
 		}
 		if !sh.IsPositive() {
-			return nil, fmt.Errorf("share amount is zero or negative")
+			return nil, errHarness("share amount is zero or negative")
 		}
 		return sh.BigInt(), nil
 	case "exit":
